@@ -105,7 +105,7 @@ class SetV:
         return 'set{%s}' % ', '.join(repr(k) for k in self.d)
 
 class Opaque:
-    __slots__ = ('tag', 'data')
+    __slots__ = ('tag', 'data', 'numeric')
     def __init__(self, tag, data=None):
         self.tag, self.data = tag, data
     def __repr__(self):
